@@ -263,7 +263,7 @@ pub fn enumerate(t: usize, n: usize, bound: usize, cap: usize, stats: &mut Stats
 impl Prop for C05 {
     type Case = Case;
     const ID: &'static str = "C05";
-    const RULE: &'static str = "T in 0..=4 worker threads x n in 0..=12 inputs x a generated schedule: (a) a vector of <= 400 choices over the enabled actors (consumer, workers parked at the hook points ticket/compute/turn-spin/send/advance/exit), completed non-preemptively, (b) a PCT schedule (random priorities + <= 3 priority change points), (c) thorough tier: every schedule with <= 2 preemptions for T <= 3, n <= 4 (stateless re-execution, reported as `enumerated`), (d) real threads with a chaos controller and generated per-item delays (n <= 200), or 2000-6000 items without delays (contention on the ticket lock). The serialising controller runs exactly one actor at a time. Oracle after every step: the received sequence is a prefix of f(x0), f(x1), ...; no input processed twice; at the end every input processed exactly once, next() returns None, all workers reached their exit point; no deadlock. Non-trivial: the schedule preempts a worker between `before send` and `turn advanced`, or two workers are past compute at the same time. Distinct = distinct serialised case.";
+    const RULE: &'static str = "T in 0..=4 (occasionally up to 8; real threads up to 16) worker threads x n in 0..=12 (occasionally up to 40) inputs x a generated schedule: (a) a vector of <= 400 choices over the enabled actors (consumer, workers parked at the hook points ticket/compute/turn-spin/send/advance/exit), completed non-preemptively, (b) a PCT schedule (random priorities + <= 3 priority change points), (c) thorough tier: every schedule with <= 2 preemptions for T <= 3, n <= 4 (stateless re-execution, reported as `enumerated`), (d) real threads with a chaos controller and generated per-item delays (n <= 200), or 2000-6000 items without delays (contention on the ticket lock). The serialising controller runs exactly one actor at a time. Oracle after every step: the received sequence is a prefix of f(x0), f(x1), ...; no input processed twice; at the end every input processed exactly once, next() returns None, all workers reached their exit point; no deadlock. Non-trivial: the schedule preempts a worker between `before send` and `turn advanced`, or two workers are past compute at the same time. Distinct = distinct serialised case.";
     const CLAIMS_TERMINATION: bool = true;
     const HANG_SECS: u64 = 30;
     const ESSENTIAL: &'static [&'static str] = &["preempt_in_send_window", "two_workers_past_compute", "out_of_order_compute", "channel_full", "T=0", "n<T", "pct", "choices", "real"];
@@ -277,15 +277,15 @@ impl Prop for C05 {
 
     fn strategy(_tier: Tier, _shard: u32) -> BoxedStrategy<Case> {
         let controlled = (
-            prop_oneof![1 => Just(0usize), 3 => Just(1usize), 6 => Just(2usize), 5 => Just(3usize), 3 => Just(4usize)],
-            0usize..=12,
+            prop_oneof![2 => Just(0usize), 6 => Just(1usize), 12 => Just(2usize), 10 => Just(3usize), 6 => Just(4usize), 1 => 5usize..=8],
+            prop_oneof![12 => 0usize..=12, 1 => 13usize..=40],
             prop_oneof![
                 5 => proptest::collection::vec(any::<u16>(), 0..=400).prop_map(Sched::Choices),
                 2 => (proptest::collection::vec(any::<u16>(), 5), proptest::collection::vec(0u16..120, 0..=3)).prop_map(|(prio, changes)| Sched::Pct { prio, changes }),
             ],
         )
             .prop_map(|(t, n, sched)| Case { t, n, sched });
-        let real = (0usize..=4, prop_oneof![3 => 0usize..=200, 1 => 2000usize..=6000], proptest::collection::vec(prop_oneof![3 => Just(0u16), 2 => 0u16..300], 1..=8), any::<u64>())
+        let real = (prop_oneof![8 => 0usize..=4, 1 => 5usize..=16], prop_oneof![3 => 0usize..=200, 1 => 2000usize..=6000], proptest::collection::vec(prop_oneof![3 => Just(0u16), 2 => 0u16..300], 1..=8), any::<u64>())
             .prop_map(|(t, n, delays, chaos)| if n > 200 { (t, n, vec![0u16], chaos) } else { (t, n, delays, chaos) })
             .prop_map(|(t, n, delays, chaos)| Case { t, n, sched: Sched::Real { delays, chaos } });
         prop_oneof![12 => controlled, 1 => real].boxed()
